@@ -1,6 +1,7 @@
 import Pycoin.Props.C08
 import Pycoin.Model.ParseText
 import Pycoin.Proofs.Bytes
+import Pycoin.Proofs.ParseTextRt2
 /-!
 C18 — text parsing is total, faithful and keeps kinds apart.
 
@@ -448,7 +449,9 @@ theorem C18_total_electrum (ke : KeyEnv) (s : String) :
     · exact ⟨_, rfl⟩
   · unfold parseElectrumPub; split
     · split
-      · exact electrumOut_pub ..
+      · split
+        · exact ⟨_, rfl⟩
+        · exact electrumOut_pub ..
       · exact ⟨_, rfl⟩
     · exact ⟨_, rfl⟩
 
@@ -675,6 +678,236 @@ theorem C18_wif_canonical (env : Env) (laws : CodecLaws env) (ke : KeyEnv) (net 
               unfold parseWif; simp only [hd, hp, hpre, if_false, h33, h32, if_true]; exact h
           · cases h
 
+/-! ## every other kind: what is returned re-serialises to text that parses to an equal object; out-of-range contents are refused
+
+`KeyLaws ke` (Proofs/ParseKeyRt.lean) plays for the curve object the part `CodecLaws env` plays for the codecs: `points_for_x`
+returns the two reduced points of an `x`, a reduced curve point is one of them, `se * G` is reduced, `p, n ≤ 2²⁵⁶`, HMAC-SHA512
+yields 64 bytes.  Proofs: Proofs/ParseKeyRt.lean, ParseExtRt.lean, ParseTextRt.lean, ParseTextRt2.lean. -/
+
+/-- ★ extended keys (`bip32_prv/pub`, `bip49_*`, `bip84_*`; every network of the table): an accepted text decodes to 78 bytes
+and the node has in-range contents — one-byte depth, 4-byte fingerprint, child number < 2³², 32-byte chain code, and a key that
+is either `00 ‖ se` with `1 ≤ se < n` or a compressed SEC with `x < p` having a curve point (`KeyObj.InRange`).  Unless the
+text belongs to the class of the open known finding `extkey-version-marker-mismatch` (`MarkerMismatch`: private version bytes
+with a public key field, or the reverse), `hwif` of the node — private for a `_prv` entry, public for a `_pub` entry — is the
+very text that was parsed, hence parses to the same node. -/
+theorem C18_extkey_reserialises (env : Env) (laws : CodecLaws env) (ke : KeyEnv) (kl : KeyLaws ke) (net : Network) (hn : net ∈ all)
+    (kind : Nat) (prv : Bool) (s : String) (o : Obj) (h : hparse env ke net kind prv s = .ok (some o)) :
+    ∃ data n, parseB58Hashed env net s = some data ∧ data.length = 78 ∧ o = .node n ∧ n.kind = kind ∧
+      n.depth ≤ 255 ∧ n.fingerprint.length = 4 ∧ n.childIndex < 2 ^ 32 ∧ n.chainCode.length = 32 ∧
+      n.key.InRange ke ∧ n.key.compressed = true ∧ (n.key.se.isSome ↔ slice data 45 46 = [0]) ∧
+      (¬ MarkerMismatch data prv →
+        hwif env net n prv = .ok s ∧ hparse env ke net kind prv s = .ok (some (.node n))) :=
+  hparse_reserialises env laws ke kl net hn kind prv s o h
+
+/-- the same through the catch-all `parse.bipNN` (`_prv` tried first, then `_pub`) -/
+theorem C18_extkey_reserialises_bip (env : Env) (laws : CodecLaws env) (ke : KeyEnv) (kl : KeyLaws ke) (net : Network)
+    (hn : net ∈ all) (kind : Nat) (s : String) (o : Obj) (h : parseBip env ke net kind s = .ok (some o)) :
+    ∃ prv data n, parseB58Hashed env net s = some data ∧ o = .node n ∧ n.kind = kind ∧ n.key.InRange ke ∧
+      (¬ MarkerMismatch data prv → hwif env net n prv = .ok s ∧ parseBip env ke net kind s = .ok (some (.node n))) := by
+  unfold parseBip pOr at h
+  split at h
+  · cases h
+  · rename_i o' h1
+    injection h with h; injection h with h; subst h
+    obtain ⟨data, n, a, -, b, c, -, -, -, -, d, -, -, e⟩ := hparse_reserialises env laws ke kl net hn kind true s _ h1
+    exact ⟨true, data, n, a, b, c, d, fun hm => ⟨(e hm).1, by subst b; simp [parseBip, pOr, h1]⟩⟩
+  · rename_i h1
+    obtain ⟨data, n, a, -, b, c, -, -, -, -, d, -, -, e⟩ := hparse_reserialises env laws ke kl net hn kind false s _ h
+    exact ⟨false, data, n, a, b, c, d, fun hm => ⟨(e hm).1, by subst b; simp [parseBip, pOr, h1, h]⟩⟩
+
+/-- ★ extended keys, out-of-range contents: a Base58Check payload whose key field is `00 ‖ e` with `e = 0` or `e ≥ n`, or
+whose key field does not start with `00` and is refused by the strict SEC decoder (a first byte other than `02`/`03`,
+`x ≥ p`, an `x` without a curve point: `secToPublicPair_shape`, `C18_sec_refuses`), is refused by every extended-key entry
+point (wrong lengths: `C18_wrong_length_refused`) -/
+theorem C18_extkey_refuses (env : Env) (ke : KeyEnv) (net : Network) (kind : Nat) (prv : Bool) (s : String) (data : Bytes)
+    (hd : parseB58Hashed env net s = some data)
+    (h : (slice data 45 46 = [0] ∧ (beNat (data.drop 46) = 0 ∨ beNat (data.drop 46) ≥ ke.order)) ∨
+         (slice data 45 46 ≠ [0] ∧ ∃ e, secToPublicPair ke (data.drop 45) = .error e)) :
+    hparse env ke net kind prv s = .ok none := by
+  unfold hparse
+  rw [hd]
+  cases nodeParsePrefix net kind prv with
+  | none => rfl
+  | some p =>
+    simp only
+    split
+    · rfl
+    · split
+      · rfl
+      · rename_i hl
+        have hl' : data.length = 78 := by simpa using hl
+        have h8 : (slice data 5 13).length = 8 := by rw [slice_len _ _ _ (by omega)]
+        rcases h with ⟨h0, hr⟩ | ⟨h0, e, he⟩
+        · have : deserialize ke kind data = .error .invalidSecretExponent := by
+            unfold deserialize deserializeKey
+            simp only [h8, ne_eq, not_true_eq_false, if_false, h0, if_true,
+              mkPrivateKey_range (ke := ke) (v := (beNat (data.drop 46) : Nat)) true (by omega)]
+          rw [this]
+        · have : deserialize ke kind data = .error e := by
+            unfold deserialize deserializeKey
+            simp only [h8, ne_eq, not_true_eq_false, if_false, h0, he]
+          rw [this]
+          rcases secToPublicPair_err he with rfl | rfl <;> rfl
+
+/-- ★ SEC text (`parse.sec`, with or without the network's `sec_prefix`): an accepted text is the hex of a blob of one of
+the two strict shapes; the key is public with a reduced point on the curve (`x < p`, and `y < p` in the uncompressed form);
+the key encodes — with the compression flag read off the blob — to that very blob, and `as_text()` of the key
+(`sec_prefix` + hex) parses back to the same point and flag -/
+theorem C18_sec_reserialises (ke : KeyEnv) (kl : KeyLaws ke) (net : Network) (hn : net ∈ all) (s : String) (o : Obj)
+    (h : parseSec ke net s = .ok (some o)) :
+    ∃ sec k t, h2b (secBody net s) = some sec ∧ o = .key k ∧ k.se = none ∧ k.InRange ke ∧
+      k.compressed = decide (sec.take 1 = [2] ∨ sec.take 1 = [3]) ∧ secOf k k.compressed = .ok sec ∧
+      secText net k = .ok t ∧ parseSec ke net t = .ok (some (.key k)) :=
+  parseSec_reserialises ke kl net hn s o h
+
+/-- ★ SEC text, out-of-range contents: hex of a blob that is neither 65 bytes starting `04` nor 33 bytes starting `02`/`03`,
+or whose `x` (or, uncompressed, `y`) is not below `p`, or whose `x` has no curve point, or whose uncompressed point is not
+on the curve, is refused -/
+theorem C18_sec_refuses (ke : KeyEnv) (net : Network) (s : String) (sec : Bytes) (hs : h2b (secBody net s) = some sec) :
+    (¬ ((sec.length = 65 ∧ sec.take 1 = [4]) ∨ (sec.length = 33 ∧ (sec.take 1 = [2] ∨ sec.take 1 = [3]))) →
+      parseSec ke net s = .ok none) ∧
+    (∀ b xs, sec = b :: xs → xs.length = 32 → (beNat xs ≥ ke.p ∨ ke.pointsForX (beNat xs : Int) = none) →
+      parseSec ke net s = .ok none) ∧
+    (∀ xs ys, sec = 4 :: (xs ++ ys) → xs.length = 32 → ys.length = 32 →
+      (beNat xs ≥ ke.p ∨ beNat ys ≥ ke.p ∨ ke.containsPoint (beNat xs : Int) (beNat ys : Int) = false) →
+      parseSec ke net s = .ok none) := by
+  have none_of : (∀ k, keyFromSec ke sec ≠ .ok k) → parseSec ke net s = .ok none := by
+    intro hno
+    unfold parseSec; rw [hs]
+    cases hk : keyFromSec ke sec with
+    | ok k' => exact absurd hk (hno k')
+    | error e => simp only [hk]
+  refine ⟨fun hshape => none_of fun k hk => ?_, fun b xs hsec hx hbad => none_of fun k hk => ?_,
+    fun xs ys hsec hx hy hbad => none_of fun k hk => ?_⟩
+  · unfold keyFromSec at hk
+    rw [secToPublicPair_shape hshape] at hk
+    cases hk
+  · unfold keyFromSec at hk
+    cases hp : secToPublicPair ke sec with
+    | error e => rw [hp] at hk; cases hk
+    | ok pp =>
+      subst hsec
+      cases secToPublicPair_inv hp with
+      | uncompressed xs' ys' hx' hy' _ _ => simp [hx', hy'] at hx
+      | compressed _ _ hb _ hxp e o hpx =>
+        rcases hbad with h | h
+        · omega
+        · rw [h] at hpx; cases hpx
+  · unfold keyFromSec at hk
+    cases hp : secToPublicPair ke sec with
+    | error e => rw [hp] at hk; cases hk
+    | ok pp =>
+      rw [hp] at hk
+      simp only [bind, Except.bind] at hk
+      obtain ⟨-, hon⟩ := mkPublicKey_inv hk
+      subst hsec
+      generalize hgen : (4 : UInt8) :: (xs ++ ys) = sec' at hp
+      cases secToPublicPair_inv hp with
+      | uncompressed xs' ys' hx' hy' hxp hyp =>
+        injection hgen with _ hgen
+        obtain ⟨rfl, rfl⟩ := List.append_inj hgen (by rw [hx, hx'])
+        rcases hbad with h | h | h
+        · omega
+        · omega
+        · rw [h] at hon; cases hon
+      | compressed b _ hb hxl _ _ _ _ =>
+        injection hgen with hb' hgen
+        subst hb'
+        rcases hb with hb | hb <;> cases hb
+
+/-- ★ public pairs (`x/y`, `x,y`, `x/even`, `x/odd`, numbers decimal or hexadecimal): what is returned is a compressed public
+key whose point is on the curve with `0 < x < p`, `0 ≤ y < p` — so a coordinate from `p` upwards, `x ≤ 0`, an `x` without a
+curve point or a pair off the curve is never returned (totality: it is refused with `None`) —, and `as_text()` of the key
+parses back (through `parse.sec`) to the same pair and flag -/
+theorem C18_public_pair_reserialises (env : Env) (ke : KeyEnv) (kl : KeyLaws ke) (net : Network) (hn : net ∈ all)
+    (s : String) (o : Obj) (h : parsePublicPair ke s = .ok (some o)) :
+    ∃ k t, o = .key k ∧ k.se = none ∧ k.compressed = true ∧ ReducedPt ke k.pub ∧ k.InRange ke ∧
+      keyText env net k = .ok t ∧ parseSec ke net t = .ok (some (.key k)) :=
+  parsePublicPair_reserialises env ke kl net hn s o h
+
+/-- public pairs, out-of-range contents: whatever the text, an answer other than `None` is a reduced point of the curve -/
+theorem C18_public_pair_refuses (ke : KeyEnv) (kl : KeyLaws ke) (s : String) :
+    parsePublicPair ke s = .ok none ∨
+      ∃ k, parsePublicPair ke s = .ok (some (.key k)) ∧ ReducedPt ke k.pub ∧ ke.containsPoint k.pub.1 k.pub.2 = true := by
+  obtain ⟨v, hv⟩ := C18_total_public_pair ke s
+  cases v with
+  | none => exact Or.inl hv
+  | some o =>
+    obtain ⟨pt, k, hpt, hk, rfl⟩ := parsePublicPair_inv hv
+    obtain ⟨rfl, hon⟩ := mkPublicKey_inv hk
+    exact Or.inr ⟨_, hv, publicPairPoint_reduced kl hpt, hon⟩
+
+/-- ★ secret exponents (decimal or hexadecimal text): an accepted text denotes an integer in `[1, n)`; the key is compressed
+with public pair `se * G`; where the network has a WIF prefix, `as_text()` of the key (its WIF) parses back to the key -/
+theorem C18_secret_exponent_reserialises (env : Env) (laws : CodecLaws env) (ke : KeyEnv) (kl : KeyLaws ke) (net : Network)
+    (hn : net ∈ all) (s : String) (o : Obj) (h : parseSecretExponent ke s = .ok (some o)) :
+    ∃ v k, asNumber s = some v ∧ 1 ≤ v ∧ v < ke.order ∧ o = .key k ∧ k.se = some v.toNat ∧ k.compressed = true ∧
+      k.InRange ke ∧
+      ∀ p, net.parseWif = some p → ∃ t, keyText env net k = .ok t ∧ parseWif env ke net t = .ok (some (.key k)) :=
+  parseSecretExponent_reserialises env laws ke kl net hn s o h
+
+/-- ★ secret exponents, out of range: 0, a negative number, the group order and everything above it are refused -/
+theorem C18_secret_exponent_refuses (ke : KeyEnv) (s : String) (v : Int) (hv : asNumber s = some v)
+    (hr : v < 1 ∨ v ≥ ke.order) : parseSecretExponent ke s = .ok none :=
+  parseSecretExponent_refuses ke s v hv hr
+
+/-- ★ seeds (`P:<text>`, `H:<hex>`; `bip32_seed` = `hd_seed`): an accepted text gives exactly the BIP32 master node of the
+seed bytes — `I = HMAC-SHA512("Bitcoin seed", seed)`, secret exponent `parse256(I_L) ∈ [1, n)`, chain code `I_R`, depth 0,
+parent fingerprint `00000000`, child number 0 (`C09_master_from_seed`: = the specification's master key generation) — and,
+where the network has a BIP32 private prefix, the node's `hwif(as_private=True)` parses back to the node -/
+theorem C18_seed_reserialises (env : Env) (laws : CodecLaws env) (ke : KeyEnv) (kl : KeyLaws ke) (net : Network)
+    (hn : net ∈ all) (s : String) (o : Obj) (h : parseBip32Seed ke s = .ok (some o)) :
+    ∃ tag rest ms n, parseColonPrefix s = some (tag, rest) ∧ seedBytes tag rest = some ms ∧ o = .node n ∧
+      fromMasterSecret ke ms = .ok n ∧
+      n.kind = 32 ∧ n.depth = 0 ∧ n.fingerprint = [0, 0, 0, 0] ∧ n.childIndex = 0 ∧
+      n.chainCode = (ke.hmacSha512 "Bitcoin seed".toUTF8.toList ms).drop 32 ∧
+      n.key.se = some (beNat ((ke.hmacSha512 "Bitcoin seed".toUTF8.toList ms).take 32)) ∧
+      1 ≤ beNat ((ke.hmacSha512 "Bitcoin seed".toUTF8.toList ms).take 32) ∧
+      beNat ((ke.hmacSha512 "Bitcoin seed".toUTF8.toList ms).take 32) < ke.order ∧
+      n.key.compressed = true ∧ n.key.InRange ke ∧
+      ∀ p, net.parseBip32Prv = some p →
+        ∃ t, hwif env net n true = .ok t ∧ hparse env ke net 32 true t = .ok (some (.node n)) :=
+  parseBip32Seed_reserialises env laws ke kl net hn s o h
+
+/-- ★ seeds, out-of-range contents: a seed whose `I_L` is 0 or not below the group order is refused (BIP32: "the master key is
+invalid"), not reduced or replaced -/
+theorem C18_seed_refuses (ke : KeyEnv) (s tag rest : String) (ms : Bytes) (hc : parseColonPrefix s = some (tag, rest))
+    (hms : seedBytes tag rest = some ms)
+    (h : beNat ((ke.hmacSha512 "Bitcoin seed".toUTF8.toList ms).take 32) = 0 ∨
+      beNat ((ke.hmacSha512 "Bitcoin seed".toUTF8.toList ms).take 32) ≥ ke.order) :
+    parseBip32Seed ke s = .ok none :=
+  parseBip32Seed_refuses ke s tag rest ms hc hms h
+
+/-- ★ Electrum private forms (`E:` + 32 hex digits: a seed, stretched; `E:` + 64: the master private key): the exponent lies
+in `[1, n)`, the wallet is an uncompressed key with pair `se * G`, and its `as_text()` (the uncompressed WIF) parses back through
+`parse.wif` to a key with the same exponent, pair and flag (the wallet class itself has no text form of its own: Electrum
+wallets re-serialise as plain keys) -/
+theorem C18_electrum_prv_reserialises (env : Env) (laws : CodecLaws env) (ke : KeyEnv) (kl : KeyLaws ke) (net : Network)
+    (hn : net ∈ all) (s : String) (o : Obj)
+    (h : parseElectrumPrv ke s = .ok (some o) ∨ parseElectrumSeed ke s = .ok (some o)) :
+    ∃ blob k se, electrumBlob s = some blob ∧ o = .electrum k ∧ k.se = some se ∧ 1 ≤ se ∧ se < ke.order ∧
+      ((blob.length = 32 ∧ se = beNat blob) ∨ (blob.length = 16 ∧ se = beNat (ke.electrumStretch (b2h blob)))) ∧
+      k.compressed = false ∧ k.InRange ke ∧
+      ∀ p, net.parseWif = some p → ∃ t, keyText env net k = .ok t ∧ parseWif env ke net t = .ok (some (.key k)) :=
+  parseElectrumPrv_reserialises env laws ke kl net hn s o h
+
+/-- ★ Electrum public form (`E:` + 128 hex digits): 64 bytes `x ‖ y`, both coordinates below `p`, the point on the curve;
+the wallet is an uncompressed public key whose `as_text()` parses back through `parse.sec` to the same pair and flag.
+(Before fix fdc63ef `x + p` was accepted for small `x` and the text did not parse back: corpus.) -/
+theorem C18_electrum_pub_reserialises (env : Env) (ke : KeyEnv) (kl : KeyLaws ke) (net : Network) (hn : net ∈ all)
+    (s : String) (o : Obj) (h : parseElectrumPub ke s = .ok (some o)) :
+    ∃ blob k t, electrumBlob s = some blob ∧ blob.length = 64 ∧ o = .electrum k ∧ k.se = none ∧ k.compressed = false ∧
+      k.pub = ((beNat (blob.take 32) : Int), (beNat (blob.drop 32) : Int)) ∧ k.InRange ke ∧
+      keyText env net k = .ok t ∧ parseSec ke net t = .ok (some (.key k)) :=
+  parseElectrumPub_reserialises env ke kl net hn s o h
+
+/-- ★ Electrum, wrong lengths and out-of-range contents: a payload of the wrong length, a private key 0 or ≥ n, a public
+coordinate ≥ p is refused -/
+theorem C18_electrum_refuses (ke : KeyEnv) (s : String) (blob : Bytes) (hb : electrumBlob s = some blob) :
+    ((blob.length ≠ 32 ∨ beNat blob = 0 ∨ beNat blob ≥ ke.order) → parseElectrumPrv ke s = .ok none) ∧
+    ((blob.length ≠ 64 ∨ beNat (blob.take 32) ≥ ke.p ∨ beNat (blob.drop 32) ≥ ke.p) → parseElectrumPub ke s = .ok none) :=
+  ⟨parseElectrumPrv_refuses ke s blob hb, parseElectrumPub_refuses ke s blob hb⟩
+
 /-! ## one `parseable_str` object, several networks and entry points -/
 
 /-- ★ the same for every one of the 35 entry points: on one shared `parseable_str` object, whatever was parsed before
@@ -704,4 +937,75 @@ example : parseWif toyEnv toyKe net_btc (toyEnv.b58cEnc .sha256d ([128] ++ beByt
 example : ∃ o, parseWif toyEnv toyKe net_tgrs (toyEnv.b58cEnc .groestl ([239] ++ beBytes 5 32 ++ [1])) = .ok (some o) := ⟨_, rfl⟩
 example : parseWif toyEnv toyKe net_tgrs (toyEnv.b58cEnc .groestl ([128] ++ beBytes 5 32 ++ [1])) = .ok none := rfl
 example : parseWif toyEnv toyKe net_tgrs (toyEnv.b58cEnc .sha256d ([239] ++ beBytes 5 32 ++ [1])) = .ok none := rfl
+/-! ### non-vacuity of the re-serialisation theorems: a toy curve object satisfying `KeyLaws` -/
+
+/-- a toy "curve": for every `x` the points `(x, 2)` (even) and `(x, 21)` (odd), field size 23, group order 1000 -/
+def toyKe2 : KeyEnv where
+  p := 23
+  order := 1000
+  mulG se := ((se % 23 : Nat), 2)
+  pointsForX x := some ((x, 2), (x, 21))
+  containsPoint _ y := y == 2 || y == 21
+  hmacSha512 _ m := (m ++ List.replicate 64 7).take 64
+  electrumStretch _ := beBytes 9 32
+
+theorem toy_key_laws : KeyLaws toyKe2 where
+  pfx_sound x e o h := by
+    simp only [toyKe2, Option.some.injEq, Prod.mk.injEq] at h
+    obtain ⟨rfl, rfl⟩ := h
+    simp [toyKe2]
+  pfx_complete x y h _ _ _ _ := by
+    refine ⟨(x, 2), (x, 21), rfl, ?_⟩
+    simp only [toyKe2, Bool.or_eq_true, beq_iff_eq] at h
+    rcases h with rfl | rfl <;> simp
+  mulG_reduced se _ _ := by
+    simp only [toyKe2]
+    refine ⟨by omega, ?_, by omega, by omega⟩
+    have : se % 23 < 23 := Nat.mod_lt _ (by omega)
+    omega
+  p256 := by decide
+  order256 := by decide
+  hmac_len k m := by simp [toyKe2]
+
+set_option maxRecDepth 100000
+
+/-- an `xprv` text on BTC: private version bytes `0488ade4`, key field `00 ‖ 5` -/
+def toyXprv (keyField : Bytes) : String :=
+  toyEnv.b58cEnc .sha256d ([4, 136, 173, 228] ++ [3] ++ [1, 2, 3, 4] ++ [0, 0, 0, 7] ++ List.replicate 32 9 ++ keyField)
+
+example : ∃ o, hparse toyEnv toyKe2 net_btc 32 true (toyXprv (0 :: beBytes 5 32)) = .ok (some o) := ⟨_, rfl⟩
+/-- … it is not in the class of the finding, so `C18_extkey_reserialises` gives `hwif = text` -/
+example : ∃ n, hwif toyEnv net_btc n true = .ok (toyXprv (0 :: beBytes 5 32)) := by
+  obtain ⟨data, n, hd, -, -, -, -, -, -, -, -, -, -, h⟩ :=
+    C18_extkey_reserialises toyEnv toy_laws toyKe2 toy_key_laws net_btc (by decide) 32 true (toyXprv (0 :: beBytes 5 32)) _ rfl
+  have hd' : data = [4, 136, 173, 228] ++ [3] ++ [1, 2, 3, 4] ++ [0, 0, 0, 7] ++ List.replicate 32 9 ++ (0 :: beBytes 5 32) := by
+    have : parseB58Hashed toyEnv net_btc (toyXprv (0 :: beBytes 5 32)) = some _ := toy_laws.b58_rt _ _ (by simp)
+    rw [this] at hd; injection hd with hd; exact hd.symm
+  exact ⟨n, (h (by subst hd'; unfold MarkerMismatch; decide)).1⟩
+/-- exponent 0 and exponent = order are refused; so is a key field `05…` under private version bytes -/
+example : hparse toyEnv toyKe2 net_btc 32 true (toyXprv (0 :: beBytes 0 32)) = .ok none := rfl
+example : hparse toyEnv toyKe2 net_btc 32 true (toyXprv (0 :: beBytes 1000 32)) = .ok none := rfl
+example : hparse toyEnv toyKe2 net_btc 32 true (toyXprv (5 :: beBytes 5 32)) = .ok none := rfl
+/-- the class of the open finding is inhabited: private version bytes, public key field `02 ‖ x`: accepted by `bip32_prv`, and the node
+has no private text at all -/
+example : ∃ n, hparse toyEnv toyKe2 net_btc 32 true (toyXprv (2 :: beBytes 5 32)) = .ok (some (.node n)) ∧
+    hwif toyEnv net_btc n true = .error .valueError :=
+  ⟨_, rfl, rfl⟩
+/-- SEC text with and without the prefix, public pair, secret exponent, seed, Electrum: accepted on the toy curve -/
+example : ∃ o, parseSec toyKe2 net_btc ("BTCSEC:" ++ b2h (3 :: beBytes 5 32)) = .ok (some o) := ⟨_, rfl⟩
+example : ∃ o, parseSec toyKe2 net_btc (b2h (4 :: (beBytes 5 32 ++ beBytes 21 32))) = .ok (some o) := ⟨_, rfl⟩
+example : parseSec toyKe2 net_btc (b2h (4 :: (beBytes 23 32 ++ beBytes 21 32))) = .ok none := rfl
+example : parseSec toyKe2 net_btc (b2h (3 :: beBytes 23 32)) = .ok none := rfl
+example : ∃ o, parsePublicPair toyKe2 "5/odd" = .ok (some o) := ⟨_, rfl⟩
+example : ∃ o, parsePublicPair toyKe2 "5/21" = .ok (some o) := ⟨_, rfl⟩
+example : parsePublicPair toyKe2 "23/21" = .ok none := rfl
+example : parsePublicPair toyKe2 "5/44" = .ok none := rfl
+example : ∃ o, parseSecretExponent toyKe2 "999" = .ok (some o) := ⟨_, rfl⟩
+example : parseSecretExponent toyKe2 "1000" = .ok none := rfl
+example : parseSecretExponent toyKe2 "0" = .ok none := rfl
+example : ∃ o, parseBip32Seed toyKe2 ("H:" ++ b2h (beBytes 77 32)) = .ok (some o) := ⟨_, rfl⟩
+example : parseBip32Seed toyKe2 ("H:" ++ b2h (beBytes 0 32)) = .ok none := rfl
+example : ∃ o, parseElectrumPrv toyKe2 ("E:" ++ b2h (beBytes 5 32)) = .ok (some o) := ⟨_, rfl⟩
+example : ∃ o, parseElectrumPub toyKe2 ("E:" ++ b2h (beBytes 5 32 ++ beBytes 21 32)) = .ok (some o) := ⟨_, rfl⟩
+example : parseElectrumPub toyKe2 ("E:" ++ b2h (beBytes (5 + 23) 32 ++ beBytes 21 32)) = .ok none := rfl
 end Pycoin.Addr
